@@ -55,6 +55,14 @@ def context_programs(tier):
     out.append(('dollar-only-cdata', doc({'cdata': ['a', {'dollar': 1}, 'b']}, 't'), []))
     out.append(('dollar-with-interp-comment-cdata', doc({'comment': ['a', {'dollar': 1}, R('c1')], 'kind': ''},
                                                         {'cdata': [{'dollar': 2}, R('c2'), 'b']}), []))
+    # implicit translation of text (option): interpolation delimiting is the same; a run mixing names and other
+    # expressions; an escaped ${name} next to a real one (known finding)
+    out.append(('implicit-translate-mixed', doc({'tag': 'p', 'children': ['a ', I('x'), ' b ', R('r', 2), ' c ', I('y'), ' d']},
+                                                {'tag': 'q', 'children': [R('q1', 3), ' and ', I('x')]},
+                                                {'tag': 'q', 'children': [I('x'), ' and ', R('q2', 4)]}),
+                [['x', 'int', 0], ['y', 'int', 1]], {'implicit_i18n_translate': True}))
+    out.append(('implicit-translate-escaped-name', doc({'tag': 'p', 'children': [{'dollar': 1}, '{x} ', I('x')]}),
+                [['x', 'int', 0]], {'implicit_i18n_translate': True}))
     # values decide which branch is rendered: nothing evaluated where switched off
     out.append(('cond-and-switch', doc({'tag': 'p', 'condition': py('cv'), 'children': [R('in')]},
                                        {'tag': 'p', 'interp_switch': 'off', 'condition': py('cv'), 'children': [R('no')]}),
@@ -110,7 +118,7 @@ def plan(tier, seed):
                 'accept/reject pattern per opening); entity decoding: %d shapes, up to %d symbolic code points; contexts '
                 'and switches: %d templates (text, both attribute quotings, comment, <!--?, <!--!, CDATA, '
                 'meta:interpolation nestings depth <= 3, comment option off, entities and braces/quotes/$ inside '
-                'expressions, $-runs) executed against the reference with recording callables. Outside: the real '
+                'expressions, $-runs, text under implicit_i18n_translate) executed against the reference with recording callables. Outside: the real '
                 'Python grammar as validator, expressions longer than the shapes, $name (braces optional) form.'
                 % (len(famK['jobs']), 4 if quick else 5, len(ent_shapes), 3 if quick else 4, len(jobs))),
         assumptions=['validator stand-in: ExpressionError iff bit len(candidate) of a symbolic mask is clear',
